@@ -5,6 +5,31 @@ HERE = os.path.dirname(os.path.abspath(__file__))
 
 # id -> (implemented, engine, level, technique, text, note, design_ref)
 CHECKS = {
+ "C01": (True, "chanfsm", "model_checking",
+   "replay-based explicit-state BFS over the real ChannelHandler/Channel with a ghost reference monitor (closes under a counter cap)",
+   "All request histories of one channel over ~45 letters (GetPerCommitmentPoint[2], ValidateCommitmentTx[2] with valid/invalid/other-content signatures, RevokeCommitmentTx, SignLocalCommitmentTx2, SignCommitmentTx, core get_per_commitment_secret[_or_none], revoke_previous_holder_commitment, activate, recovery/redundant signing, mutual close, restart) at commitment numbers relative to the live counters, for protocol versions 4, 5, 6, until the canonical state set closes. A ghost monitor scans every reply for the channel's BOLT-3 secrets and requires an earlier accepted validate of n+1 with signatures valid by construction.",
+   "Counter cap k (2 quick / 3 thorough): states beyond the cap are terminal. Counterparty signatures are produced by the harness over LDK-built transactions assembled from the setup. secp256k1/LDK key derivation trusted.",
+   "3.1"),
+ "C02": (True, "chanfsm", "model_checking",
+   "same exploration; ghost sets signed/disclosed must stay disjoint, disclosed frozen after first signature",
+   "Same exploration as C01 (all holder-signature entry points and mutual close are letters). Every released signature is attributed to a commitment number by verifying it against harness-built holder commitments; invariants: signed and disclosed are disjoint in every state and no new secret is disclosed once a signature was released; both orders are reachable.",
+   "As C01. A signature that verifies against none of the candidate transactions is itself reported.",
+   "3.2"),
+ "C03": (True, "chanfsm+secretstore", "model_checking",
+   "explicit-state BFS over SignRemoteCommitmentTx[2]/ValidateRevocation letters with tree and rogue points/secrets + exhaustive in-order sequences into the compact secret store vs a naive BOLT-3 reference",
+   "All interleavings of sign-counterparty-commitment (numbers nc-1..nc+1, tree or rogue point, three contents, phase 1 and 2) and validate-revocation (numbers nr-1..nr+1, matching / tree-although-rogue / previous / future / unrelated secret) with restarts, until closure; ghost: signed[n] -> (point, content), revoked set; plus every in-order secret sequence (with retries of old indices, three secret kinds) of length <= 6 (8) into CounterpartyCommitmentSecrets against a keep-everything reference.",
+   "Counter cap k (3/4). The secret store is fed in order only (future indices are outside its contract and unreachable through the channel layer).",
+   "3.3"),
+ "C10": (True, "history-engines", "model_checking",
+   "refusal monitor (full state snapshot before == after on every error reply) switched on in the history explorations",
+   "Every (reachable state, request) pair of the channel explorations (holder and counterparty side, protocol versions 4-6) whose reply is an error is checked: canonical JSON of all channel slots, node state, tracker and store contents must be identical before and after.",
+   "Storage-backend failures are not injected. Successors of a state-corrupting violation are not explored.",
+   "5.1"),
+ "C11": (True, "history-engines", "fault_enumeration",
+   "durability monitor: after every request of every explored history a second signer is restored from a deep copy of the store and compared with the live one",
+   "One crash point after each request of each explored history (accepted or refused): Node::restore_node over a copy of the store, then field-by-field comparison of every channel (setup, enforcement state), tracker, allowlist, invoices and high-water mark.",
+   "Crash points are between requests, not inside a store write.",
+   "5.2"),
  "C16": (True, "kvvmc", "model_checking",
    "explicit-state BFS over the real MemoryKVVStore/RedbKVVStore/CloudKVVStore against a BTreeMap reference (closes)",
    "Every operation sequence over 2 prefix-related keys, 3-4 versions and 3 values (incl. all batches of <=2 entries and a reopen letter) is executed on the real stores in lock-step with a map reference; the canonical state set closes (100 store states quick), every read is compared after every step. Cloud store: all protocol-legal transactions of bounded length.",
